@@ -232,6 +232,10 @@ PROPS = {
         level_note=_CTN_NOTE,
     ),
     "C09": dict(
+        # regenerated functions whose ties say "an error VALUE or a result, never a panic, for every input": the ordering test and
+        # the bound walk on integers beyond int64, the argument check built on it, the policy entry point that runs the walk
+        # before anything is decoded, the selector tokenizer and the slice arithmetic
+        tie=["Ucan.Props.Tie.PolicyOrder", "Ucan.Props.Tie.Limits", "Ucan.Props.Tie.Args", "Ucan.Props.Tie.PolicyDecode", "Ucan.Props.Tie.Tokenize", "Ucan.Props.Tie.Selector"],
         props_module="Ucan.Props.C09",
         streams=["robust", "selparse", "selector", "polipld", "policy", "glob", "did", "container", "token"],
         filter=lambda pid, d: d.get("stream") == "robust" or str(d.get("go", "")).startswith(("PANIC", "panic", "TIMEOUT")) or "harness/model error" in d.get("class", ""),
